@@ -65,7 +65,7 @@ class C14Struct(Scenario):
         if r < 90:
             if name in structs.BLOOM_SUBJECTS:
                 return {"op": "setop", "ks": [rng.below(u + 4) for _ in range(rng.between(0, 6))],
-                        "which": rng.choice(("union", "intersection"))}
+                        "which": rng.choice(("union", "intersection")), "self": rng.chance(1, 4)}
             if name in ("CountMinSketch", "CountMeanSketch", "CountMeanMinSketch"):
                 return {"op": "join", "adds": [[rng.below(u), rng.between(1, 5)] for _ in range(rng.between(1, 4))]}
         if r < 95 and name == "BloomFilterOnDisk":
@@ -151,6 +151,9 @@ class C14Struct(Scenario):
             sib = C(self.cfg["est"], self.cfg["rate"], hash_function=self.env.hf)
             for k in step["ks"]:
                 sib.add(seams.key_of(k))
+            if step.get("self"):
+                sib = sub.obj  # the same object as receiver and operand
+                ctx.probe("setop_with_itself")
             res = getattr(sub.obj, step["which"])(sib)
             if res is None:
                 raise Violation("setop_refused", f"{step['which']} of compatible filters returned None", sig)
